@@ -138,7 +138,8 @@ package jparse
 
 // Parser invariant: embedded lexer well-formed and positioned at a token boundary, no pending lexer
 // error (an error token makes advance panic at once), and an EOF token means the input is exhausted.
-//@ pred pOK(p *parser) = p != nil && p.lexer.length == len(p.lexer.input) && 0 <= p.lexer.start && p.lexer.start == p.lexer.current && p.lexer.current <= p.lexer.length && 0 <= p.lexer.width && p.lexer.err == nil && p.token.Type != typeError && boolTok(p.token) && (p.token.Type == typeEOF ==> p.lexer.current == p.lexer.length) && 0 <= p.token.Position && p.token.Position <= p.lexer.length
+//@ pred pLex(p *parser) = p != nil && p.lexer.length == len(p.lexer.input) && 0 <= p.lexer.start && p.lexer.start == p.lexer.current && p.lexer.current <= p.lexer.length && 0 <= p.lexer.width && p.lexer.err == nil
+//@ pred pOK(p *parser) = pLex(p) && p.token.Type != typeError && boolTok(p.token) && (p.token.Type == typeEOF ==> p.lexer.current == p.lexer.length) && 0 <= p.token.Position && p.token.Position <= p.lexer.length
 
 // Termination measure: twice the unread input plus one for a pending non-EOF token.
 //@ pred mu(p *parser) = 2*(p.lexer.length - p.lexer.current) + b2i(p.token.Type != typeEOF)
@@ -159,7 +160,7 @@ package jparse
 //@   loop 1 invariant forall i in [0, ledCount): bps[i] >= 0
 
 //@ func (*parser).advance
-//@   requires pOK(p)
+//@   requires pLex(p)
 //@   ensures pOK(p) && same(p.lexer.input, old(p.lexer.input))
 //@   ensures mu(p) <= old(mu(p)) && (old(p.token.Type) != typeEOF ==> mu(p) < old(mu(p)))
 //@   panics *Error
@@ -346,5 +347,159 @@ package jparse
 //@ func unescape
 //@   decreases[unescape] len(src), 0
 //@   assigns nothing
+
+
+// ---------------------------------------------------------------------------
+// node.go: optimize methods (AST post-processing) and the syntax-tree invariants they rely on
+
+// Every child link of a node is non-nil once the node exists; a non-nil Node holds a non-nil pointer;
+// slices of nodes have no nil elements. (Assumed where loaded, checked where stored or allocated.)
+//@ nonnil payload jparse.Node
+//@ nonnil elems jparse.Node
+//@ nonnil field jparse.NegationNode.RHS jparse.RangeNode.LHS jparse.RangeNode.RHS jparse.LambdaNode.Body jparse.TypedLambdaNode.LambdaNode
+//@ nonnil field jparse.ObjectTransformationNode.Pattern jparse.ObjectTransformationNode.Updates jparse.PartialNode.Func jparse.FunctionCallNode.Func
+//@ nonnil field jparse.PredicateNode.Expr jparse.GroupNode.Expr jparse.GroupNode.ObjectNode jparse.ConditionalNode.If jparse.ConditionalNode.Then jparse.AssignmentNode.Value
+//@ nonnil field jparse.NumericOperatorNode.LHS jparse.NumericOperatorNode.RHS jparse.ComparisonOperatorNode.LHS jparse.ComparisonOperatorNode.RHS
+//@ nonnil field jparse.BooleanOperatorNode.LHS jparse.BooleanOperatorNode.RHS jparse.StringConcatenationNode.LHS jparse.StringConcatenationNode.RHS
+//@ nonnil field jparse.SortNode.Expr jparse.SortTerm.Expr jparse.FunctionApplicationNode.LHS jparse.FunctionApplicationNode.RHS
+//@ nonnil field jparse.dotNode.lhs jparse.dotNode.rhs jparse.singletonArrayNode.lhs jparse.predicateNode.lhs jparse.predicateNode.rhs
+
+// optimize returns the (possibly replaced) node and no error, or no node and a typed error. It may rewrite
+// any node of its own subtree (assigns heap); a path it returns has at least one step.
+//@ func iface:Node.optimize
+//@   requires arg0 != nil
+//@   ensures (r1 == nil && nn(r0)) || (r1 != nil && r0 == nil && errOK(r1))
+//@   ensures (r1 == nil && typeis(r0, "*PathNode")) ==> len(dyn(r0, "*PathNode").Steps) >= 1
+//@   assigns heap
+//@ func (*StringNode).optimize
+//@   implements iface:Node.optimize
+//@   preserves n
+//@ func (*NumberNode).optimize
+//@   implements iface:Node.optimize
+//@   preserves n
+//@ func (*BooleanNode).optimize
+//@   implements iface:Node.optimize
+//@   preserves n
+//@ func (*NullNode).optimize
+//@   implements iface:Node.optimize
+//@   preserves n
+//@ func (*RegexNode).optimize
+//@   implements iface:Node.optimize
+//@   preserves n
+//@ func (*VariableNode).optimize
+//@   implements iface:Node.optimize
+//@   preserves n
+//@ func (*NameNode).optimize
+//@   implements iface:Node.optimize
+//@   preserves n
+//@ func (*PathNode).optimize
+//@   implements iface:Node.optimize
+//@   preserves n
+//@   requires len(n.Steps) >= 1
+//@ func (*WildcardNode).optimize
+//@   implements iface:Node.optimize
+//@   preserves n
+//@ func (*DescendentNode).optimize
+//@   implements iface:Node.optimize
+//@   preserves n
+//@ func (*PlaceholderNode).optimize
+//@   implements iface:Node.optimize
+//@   preserves n
+//@ func (*PredicateNode).optimize
+//@   implements iface:Node.optimize
+//@   preserves n
+//@ func (*NegationNode).optimize
+//@   implements iface:Node.optimize
+//@   preserves n
+//@ func (*RangeNode).optimize
+//@   implements iface:Node.optimize
+//@   preserves n
+//@ func (*ObjectTransformationNode).optimize
+//@   implements iface:Node.optimize
+//@   preserves n
+//@ func (*LambdaNode).optimize
+//@   implements iface:Node.optimize
+//@   preserves n
+//@   ensures r1 == nil ==> typeis(r0, "*LambdaNode")
+//@ func (*TypedLambdaNode).optimize
+//@   implements iface:Node.optimize
+//@   preserves n
+//@ func (*GroupNode).optimize
+//@   implements iface:Node.optimize
+//@   preserves n
+//@ func (*ConditionalNode).optimize
+//@   implements iface:Node.optimize
+//@   preserves n
+//@ func (*AssignmentNode).optimize
+//@   implements iface:Node.optimize
+//@   preserves n
+//@ func (*NumericOperatorNode).optimize
+//@   implements iface:Node.optimize
+//@   preserves n
+//@ func (*ComparisonOperatorNode).optimize
+//@   implements iface:Node.optimize
+//@   preserves n
+//@ func (*BooleanOperatorNode).optimize
+//@   implements iface:Node.optimize
+//@   preserves n
+//@ func (*StringConcatenationNode).optimize
+//@   implements iface:Node.optimize
+//@   preserves n
+//@ func (*FunctionApplicationNode).optimize
+//@   implements iface:Node.optimize
+//@   preserves n
+//@ func (*dotNode).optimize
+//@   implements iface:Node.optimize
+//@   preserves n
+//@ func (*singletonArrayNode).optimize
+//@   implements iface:Node.optimize
+//@   preserves n
+//@ func (*predicateNode).optimize
+//@   implements iface:Node.optimize
+//@   preserves n
+//@ func (*ArrayNode).optimize
+//@   implements iface:Node.optimize
+//@   preserves n
+//@   loop 0 invariant same(n.Items, old(n.Items))
+//@ func (*BlockNode).optimize
+//@   implements iface:Node.optimize
+//@   preserves n
+//@   loop 0 invariant same(n.Exprs, old(n.Exprs))
+//@ func (*PartialNode).optimize
+//@   implements iface:Node.optimize
+//@   preserves n
+//@   loop 0 invariant same(n.Args, old(n.Args))
+//@ func (*FunctionCallNode).optimize
+//@   implements iface:Node.optimize
+//@   preserves n
+//@   loop 0 invariant same(n.Args, old(n.Args))
+//@ func (*SortNode).optimize
+//@   implements iface:Node.optimize
+//@   preserves n
+//@   loop 0 invariant same(n.Terms, old(n.Terms))
+//@ func (*ObjectNode).optimize
+//@   implements iface:Node.optimize
+//@   preserves n
+//@   ensures r1 == nil ==> typeis(r0, "*ObjectNode")
+//@   loop 0 invariant same(n.Pairs, old(n.Pairs))
+//@   loop 1 invariant same(n.Pairs, old(n.Pairs)) && 0 <= j && j <= 2
+
+
+// newParser: a well-formed parser positioned on the first token (or a typed panic from the lexer).
+//@ func newParser
+//@   ensures result.lexer.length == len(result.lexer.input) && 0 <= result.lexer.start && result.lexer.start == result.lexer.current && result.lexer.current <= result.lexer.length
+//@   ensures 0 <= result.lexer.width && result.lexer.err == nil && result.token.Type != typeError && boolTok(result.token)
+//@   ensures (result.token.Type == typeEOF ==> result.lexer.current == result.lexer.length) && 0 <= result.token.Position && result.token.Position <= result.lexer.length
+//@   panics *Error
+
+// Parse: the normal path. A deferred function recovers *Error panics of the parser and turns them into
+// (nil, err); the closure Parse$1 is verified for exactly that below.
+//@ func Parse
+//@   ensures (root != nil && err == nil && nn(root)) || (root == nil && errOK(err))
+//@   recovers *Error
+
+//@ func Parse$1
+//@   requires root != nil && err != nil
+//@   ensures true
 
 // END OF CONTRACTS (package jparse)
